@@ -57,3 +57,88 @@ def run(run, P):
         ctx = solve(f, Env(), on_event, None, keys, R, key_fn=lambda e: e.ts.get('emitted', ()))
         run.stats['reply_solver_steps'] += ctx.steps
         run.require(n[0] > 0 or run.fixture_mode, 'R-REPLY-ONCE: no emission found in %s()' % fname)
+
+
+# ---------------------------------------------------------------------------------------------------------------
+def run_ack_con(run, P):
+    """R-REPLY-ONCE (ACK only for Confirmables): "Non-confirmable requests are never answered with ACK".  Every place that makes an
+    ACK-typed message -- COAP_MESSAGE_ACK as the type argument of coap_pdu_init() or coap_send_message_type_lkd(), directly or as
+    an arm of a conditional expression -- does so under a test of the type of the message it answers: on the path (or in the
+    condition of the conditional expression) some PDU's type is known == CON, == ACK (the piggybacked response being split), or
+    != NON.  The helper coap_send_ack_lkd() contains that test itself; calling the generic helper with a constant ACK does not."""
+    from core.prog import strip, walk, ap, short, const_int
+    from core.psts import Env, solve, relevance, apply_generic
+    run.rule('R-REPLY-ONCE')
+    ACK = P.const_named('COAP_MESSAGE_ACK')
+    CON = P.const_named('COAP_MESSAGE_CON')
+    NON = P.const_named('COAP_MESSAGE_NON')
+    MAKERS = {'coap_pdu_init': 0, 'coap_send_message_type_lkd': 2, 'coap_send_message_type': 2}
+    n = 0
+    for f in sorted(P.lib_funcs(), key=lambda f: f['name']):
+        sites = []
+        for b, ev in P.events(f):
+            t = ev['e']
+            if t.get('k') == 'call' and t.get('fn') in MAKERS and len(t.get('a', [])) > MAKERS[t['fn']]:
+                a = strip(t['a'][MAKERS[t['fn']]])
+                if const_int(a) == ACK:
+                    sites.append((ev, 'const'))
+                elif isinstance(a, dict) and a.get('k') == 'cond':
+                    arms = (const_int(a.get('x')), const_int(a.get('y')))
+                    if ACK in arms:
+                        sites.append((ev, a))
+        if not sites:
+            continue
+        name = f['name']
+
+        def type_fact(c, truth):
+            """does cond c with this truth value say CON / ACK / not-NON about some PDU type?"""
+            c = strip(c)
+            while isinstance(c, dict) and c.get('k') == 'un' and c.get('op') == '!':
+                c = strip(c['e'])
+                truth = not truth
+            if isinstance(c, dict) and c.get('k') == 'bin' and c.get('op') in ('==', '!='):
+                l = strip(c['l'])
+                K = const_int(c['r'])
+                if isinstance(l, dict) and l.get('k') == 'mem' and l.get('f') == 'type' and K in (CON, ACK, NON):
+                    eq = truth if c['op'] == '==' else not truth
+                    if (K in (CON, ACK) and eq) or (K == NON and not eq):
+                        return True
+            return False
+
+        def is_rule_event(ev):
+            return any(ev is s[0] for s in sites)
+        keys, R = relevance(f, is_rule_event)
+        for b in f['blocks']:
+            c = (b.get('term') or {}).get('cond')
+            if c is not None and any(isinstance(x, dict) and x.get('k') == 'mem' and x.get('f') == 'type' for x in walk(c)):
+                keys = set(keys) | {b['id']}
+
+        def on_event(ev, env, ctx):
+            for sev, kind in sites:
+                if ev is sev:
+                    if kind == 'const':
+                        ok = bool(env.ts.get('tf'))
+                    else:
+                        ackarm_true = const_int(kind.get('x')) == ACK
+                        ok = type_fact(kind.get('c'), ackarm_true) or bool(env.ts.get('tf'))
+                    run.oblige('R-REPLY-ONCE', ok, '%s:ack-under-type-test' % name)
+                    if not ok:
+                        run.violation('R-REPLY-ONCE', name, ev['loc'], 'ack-without-type-test:%s' % ev['e'].get('fn'),
+                                      'an ACK is made (%s) on a path that never tested the type of the message it answers: a Non-confirmable request is answered with an ACK' %
+                                      short(ev['e'])[:70], ctx.path())
+            return None
+
+        def on_branch(b, s, env, ctx):
+            c = (b.get('term') or {}).get('cond')
+            if c is None or len(b['succ']) != 2:
+                return env
+            if type_fact(c, s == b['succ'][0]):
+                e = env.copy()
+                e.ts['tf'] = 1
+                return e
+            return env
+        for sev, kind in sites:
+            n += 1
+            run.instance('R-REPLY-ONCE', '%s: makes an ACK (%s)' % (name, sev['e'].get('fn')))
+        solve(f, Env({}), on_event, None, keys, R, key_fn=lambda e: e.ts.get('tf'), on_branch=on_branch)
+    run.require(n >= 3 or run.fixture_mode, 'R-REPLY-ONCE(ack): fewer than 3 places that make an ACK found')
